@@ -52,7 +52,7 @@ PROPS = {
             "configs_thorough": ["default-debug", "default-release"]},
     "C12": {"families": {"gen": ["gen "]}, "tables": False},
     "C13": {"families": {"gen": ["gen "], "bs": ["bs const"]}, "tables": True},
-    "C14": {"families": {f: None for f in ["prim", "parse", "fmt", "norm", "dual", "ord", "posarr", "target",
+    "C14": {"families": {f: None for f in ["prim", "bs", "parse", "fmt", "norm", "dual", "ord", "posarr", "target",
                                              "cmp", "win", "gen", "stream", "ops"]},
             "tables": False,
             "configs_quick": ["default-debug", "default-release", "unsafe-release", "unchecked-debug",
